@@ -23,6 +23,7 @@ fn main() {
         ("drive", "ops") => ops::drive(rest),
         ("drive", "own") => own::drive(rest),
         ("drive", "products") => mat::drive_products(rest),
+        ("drive", "detinv") => mat::drive_detinv(rest),
         (a, b) => { eprintln!("unknown command {} {}", a, b); std::process::exit(2); }
     }
 }
